@@ -102,7 +102,7 @@ class C06(Prop):
 
         def invalid():
             for key in ("server_max_window_bits", "client_max_window_bits"):
-                for val in ("7", "16", "0", "-8", "abc", "", "15.0", "1e1", "99999999999999999999"):
+                for val in ("7", "16", "0", "-8", "abc", "", "15.0", "1e1", "99999999999999999999", "{0}", "%s", "{x!r}"):
                     yield {"invalid": "permessage-deflate; %s=%s" % (key, val)}
         return [Enumeration("all_256_configurations_x_battery", battery, exhaustive=True),
                 Enumeration("invalid_parameters", invalid, exhaustive=True)]
